@@ -281,6 +281,18 @@ def r3_r4_scheduling(chk, repo):
                       site={"function": f.qualname, "guard": name})
 
 
+    # the forbid tests are membership tests on a *collection*: the option is normalised (a bare string
+    # would turn `in` into a substring test) on every path before them, in the same function
+    tests = [n for n in cfg.nodes if n.kind == "guard" and n.test is not None and n.polarity is True and any(isinstance(x, ast.Compare) and isinstance(x.ops[0], (ast.In, ast.NotIn)) and "forbid_creation_of" in norm(x.comparators[0]) for x in ast.walk(n.test))]
+    chk.floor("C11.R4", "forbid_creation_of membership tests", len(tests), 2)
+    normalise = lambda n: n.kind == "stmt" and not isinstance(n.stmt, COMPOUND) and (node_calls(n, lambda c, nm: nm == "self._check_forbidden") or (isinstance(n.stmt, ast.Assign) and "forbid_creation_of" in norm(n.stmt.targets[0]) and "to_str_tuple" in norm(n.stmt.value)))
+    for t in tests:
+        cmpn = [x for x in ast.walk(t.test) if isinstance(x, ast.Compare) and "forbid_creation_of" in norm(x.comparators[0])][0]
+        wrapped = "to_str_tuple" in norm(cmpn.comparators[0])
+        okp = wrapped or cfg.every_path([cfg.entry], [t], normalise, "n")[0]
+        chk.check(okp, "C11.R4", f, t.owner, f"`{norm(cmpn)[:70]}` tests membership in an option that may still be a bare string (assigned directly into context_config): it becomes a substring test, and creating `records` is refused because `raw_records` is forbidden", site_text="check_cache: forbid_creation_of normalised to a tuple before the membership tests", site={"function": f.qualname, "rule": "normalised before membership test", "test": norm(cmpn)[:60]})
+
+
 # ------------------------------------------------------------------------------------ R5
 def r5_frontend_filters(chk, repo):
     chk.describe("C11.R5", "frontends refuse unwanted data types, unsupported superruns and writes when readonly before anything else; _add_saver skips readonly frontends")
@@ -371,6 +383,8 @@ def single_producer(chk, repo, rule="C11.R6"):
 
 
 WITNESSES = [
+    W("forbid list normalised only when the config is set", "C11.R4", CONTEXT,
+      "# Data not found anywhere. We will be computing it.\n                self._check_forbidden()", "# Data not found anywhere. We will be computing it."),
     W("TARGET falls through to True", "C11.R1", CONTEXT,
       "elif target_plugin.save_when[target] == strax.SaveWhen.TARGET:\n            if target not in targets:\n                return False",
       "elif target_plugin.save_when[target] == strax.SaveWhen.TARGET:\n            pass"),
